@@ -90,6 +90,7 @@ def strategy(tier):
             "t": "hist",
             **({"rep": rep} if any(x > 1 for x in rep) else {}),
             **({"deep": deep} if deep else {}),
+            **({"quiet": True} if (len(ops) + nu + nl) % 3 == 0 and not deep and not lk else {}),
             **({"sp": sp} if any(sp) else {}),
             **({"lk": True} if lk else {}),
             "nu": nu,
@@ -148,6 +149,7 @@ def _check_hist(case):
     nu, nl = case["nu"], case["nl"]
     ucls = case.get("ucls") or [0]
     lcls = case.get("lcls") or [0]
+    quiet = bool(case.get("quiet"))
     UC = lambda k: (Universe, C.CountedUniverse)[ucls[k % len(ucls)] % 2]
     L = [(UniverseLaws, FalsyLaws)[lcls[k % len(lcls)] % 2]() for k in range(nl)] + [None]
     temps = []          # weak references to universes only the law sets hold on to
@@ -202,6 +204,8 @@ def _check_hist(case):
             # a universe that contains another universe as a member (nesting must not matter to the binding)
             u.add_vertex(U[0])
             classes.add("universe-containing-a-universe")
+        if quiet:
+            continue        # nothing is READ before the first assignment (a caller that configures first, looks later)
         if sel >= 0:
             require(u.laws is L[sel], "constructor-post", f"U{k}.laws is not the law set passed")
             require(L[sel].applies_to is u, "constructor-post", f"L{sel}.applies_to is not U{k}")
@@ -209,7 +213,9 @@ def _check_hist(case):
             require(u.laws is not None and u.laws.applies_to is u, "constructor-post", "default laws not bound")
         inv(f"after constructing U{k}")
     Ux = U + [None]
-    born_with = [(u.laws if sel < 0 else None) for u, sel in zip(U, case["init"][:nu])]
+    born_with = [None] * nu if quiet else [(u.laws if sel < 0 else None) for u, sel in zip(U, case["init"][:nu])]
+    if quiet:
+        classes.add("nothing-read-before-the-first-assignment")
     if case.get("deep"):
         # U[0] contains a chain of universes nested `deep` levels (each one the only member of the previous one)
         inner = U[0]
@@ -243,6 +249,19 @@ def _check_hist(case):
                 setattr(obj, name, val)
 
     for step, (side, i, j) in enumerate(case["ops"]):
+        if quiet and step == 0 and side == 0 and not case.get("deep") and not case.get("lk"):
+            # the very first thing that happens to U[i] after its construction is this assignment
+            new = L[j]
+            where = f"step 0 U{i}.laws = {'None' if new is None else 'L%d' % j} (nothing was read before)"
+            try:
+                put(U[i], "laws", new, step)
+            except Exception as e:  # noqa
+                raise Violation("assignment-raised", f"{where}: {e!r}")
+            require(U[i].laws is new, "assignment-post", f"{where}: U.laws is not the assigned value")
+            if new is not None:
+                require(new.applies_to is U[i], "assignment-post", f"{where}: L.applies_to is not U")
+            inv(where)
+            continue
         if side == 3:
             # U[i].laws = <the default law set universe j was constructed with> (the caller kept it): any law set
             # may be assigned, also one that was displaced earlier
@@ -369,7 +388,10 @@ def _check_attrs(case):
     pool = [True, False, 0, 1, "yes"]
     a, b, c, d = (pool[v] if flag else bool(v % 2) for flag, v in zip(case["flags"], case["vals"]))
     try:
-        lw = UniverseLaws(edge_whitelist=wl, mixed_links=a, cycles=b, multipath=c, multiverse=d)
+        if case["vals"][2] % 2:
+            lw = UniverseLaws(wl, a, b, c, d)        # the five rules passed positionally, in the documented order
+        else:
+            lw = UniverseLaws(edge_whitelist=wl, mixed_links=a, cycles=b, multipath=c, multiverse=d)
     except Exception as e:  # noqa
         raise Violation("laws-constructor-raised", repr(e))
     got = lw.edge_whitelist
